@@ -2,11 +2,11 @@
   C14 — lossy encoding fills slices to the byte budget with the smallest qindex.
   Property theorems only.  Model: VC2/Model/SliceFit.lean over the generated kernels (tied to
   encoder/pictures.py by the `sl` correspondence); proofs: VC2/Proofs/SliceFit.lean.
-  PARTIAL in one respect: that the index search always terminates (some index fits) is a hypothesis
-  (`qtf_finds` shows a fitting index within the budget is found); that the chosen qindex fits its 7/8-bit
-  field is not a property of the code (finding F6, DESIGN §7).
+  The unbounded `for qindex in count(minimum)` loop is modelled with an iteration budget; that the search
+  always terminates (so that the budget is no restriction) is `index_search_terminates`.  PARTIAL in one
+  respect: that the chosen qindex fits its 7/8-bit field is not a property of the code (finding F6, DESIGN §7).
 -/
-import VC2.Proofs.SliceFit
+import VC2.Proofs.SliceFitTerm
 namespace VC2.Props.C14
 open VC2 VC2.Gen VC2.Model.SliceFit VC2.Proofs.SliceFit
 
@@ -23,6 +23,30 @@ theorem search_finds_a_fitting_index (target : Int) (sets : List Comp) (align : 
     (h01 : q0 ≤ q1) (hf : q1 - q0 < fuel) (hfit : fits target sets align q1 = true) :
     ∃ q, quantizeToFit target sets align fuel q0 = some q :=
   qtf_finds target sets align fuel q0 q1 h01 hf hfit
+
+/-- **the index search terminates**: for every non-negative target, alignment ≥ 1, coefficient sets and
+    start index there is a number of iterations after which `quantize_to_fit` has returned — from the
+    index `setsBound` on every coefficient is quantised to zero and costs no bits — and what it returns
+    is the least fitting index from the start index upwards -/
+theorem index_search_terminates (target : Int) (sets : List Comp) (align : Int) (ht : 0 ≤ target) (ha : 1 ≤ align) (q0 : Int) :
+    ∃ fuel q, quantizeToFit target sets align fuel q0 = some q ∧ q0 ≤ q ∧ fits target sets align q = true ∧
+      ∀ q', q0 ≤ q' → q' < q → fits target sets align q' = false := by
+  obtain ⟨q, hq⟩ := qtf_terminates target sets align ht ha q0
+  exact ⟨_, q, hq, qtf_least target sets align _ q0 q hq⟩
+
+/-- … and more iterations never change the answer (the budget of the executable model is harmless) -/
+theorem more_fuel_same_answer (target : Int) (sets : List Comp) (align : Int) (fuel : Nat) (q0 q : Int)
+    (h : quantizeToFit target sets align fuel q0 = some q) (extra : Nat) :
+    quantizeToFit target sets align (fuel + extra) q0 = some q := by
+  induction fuel generalizing q0 with
+  | zero => cases h
+  | succ fuel ih =>
+    have e : fuel + 1 + extra = (fuel + extra) + 1 := by omega
+    rw [e]
+    simp only [quantizeToFit] at h ⊢
+    by_cases hf : fits target sets align q0 = true
+    · rw [if_pos hf] at h ⊢; exact h
+    · rw [if_neg hf] at h ⊢; exact ih (q0 + 1) h
 
 /-- **low-delay slices** (see `ld_slice_spec`): smallest fitting index; luma length within the bits
     left after the 7-bit qindex and the length field -/
